@@ -59,6 +59,17 @@ func checkFn(c fnCase) evid.Outcome {
 		if err != nil || !bytes.Equal(back, c.Data) {
 			return evid.Fail("EncryptFOpts applied twice gives %x (err %v), want the plaintext %x", back, err, []byte(c.Data))
 		}
+		// neighbouring calls in one process (the other counter variant, the other direction, the next counter, then
+		// the original again): each is a function of its own arguments only
+		for _, v := range []struct {
+			a, up bool
+			fcnt  uint32
+		}{{!c.AFCntDown, c.Uplink, c.FCnt}, {c.AFCntDown, !c.Uplink, c.FCnt}, {c.AFCntDown, c.Uplink, c.FCnt + 1}, {c.AFCntDown, c.Uplink, c.FCnt + 1<<16}, {c.AFCntDown, c.Uplink, c.FCnt}} {
+			got, err := lorawan.EncryptFOpts(gen.LibKey(k), v.a, v.up, gen.Addr(c.DevAddr), v.fcnt, exact(c.Data))
+			if w := ref.FOptsStream(k, v.a, v.up, c.DevAddr, v.fcnt, c.Data); err != nil || !bytes.Equal(got, w) {
+				return evid.Fail("EncryptFOpts(aFCntDown=%v uplink=%v fcnt=%#x data=%x) called right after (aFCntDown=%v uplink=%v fcnt=%#x) gives %x (err %v), specification gives %x", v.a, v.up, v.fcnt, []byte(c.Data), c.AFCntDown, c.Uplink, c.FCnt, got, err, w)
+			}
+		}
 		return evid.Outcome{NonTrivial: len(c.Data) > 0 && c.FCnt >= 1<<16, Class: fmt.Sprintf("fopts/len%s", lb(len(c.Data)))}
 	}
 	out, err := lorawan.EncryptFRMPayload(gen.LibKey(k), c.Uplink, gen.Addr(c.DevAddr), c.FCnt, exact(c.Data))
@@ -76,6 +87,15 @@ func checkFn(c fnCase) evid.Outcome {
 	back, err := lorawan.EncryptFRMPayload(gen.LibKey(k), c.Uplink, gen.Addr(c.DevAddr), c.FCnt, exact(out))
 	if err != nil || !bytes.Equal(back, c.Data) {
 		return evid.Fail("EncryptFRMPayload applied twice does not restore the %d byte plaintext (err %v)", len(c.Data), err)
+	}
+	for _, v := range []struct {
+		up   bool
+		fcnt uint32
+	}{{!c.Uplink, c.FCnt}, {c.Uplink, c.FCnt + 1}, {c.Uplink, c.FCnt}} {
+		got, err := lorawan.EncryptFRMPayload(gen.LibKey(k), v.up, gen.Addr(c.DevAddr), v.fcnt, exact(c.Data))
+		if w := ref.Keystream(k, v.up, c.DevAddr, v.fcnt, c.Data); err != nil || !bytes.Equal(got, w) {
+			return evid.Fail("EncryptFRMPayload(uplink=%v fcnt=%#x, %d bytes) called right after (uplink=%v fcnt=%#x) differs from the specification keystream (err %v): a call depends on an earlier one", v.up, v.fcnt, len(c.Data), c.Uplink, c.FCnt, err)
+		}
 	}
 	return evid.Outcome{NonTrivial: len(c.Data) > 16, Class: fmt.Sprintf("frm/len%s", lb(len(c.Data)))}
 }
@@ -181,6 +201,23 @@ func checkMethod(c methodCase) evid.Outcome {
 			}
 		}
 		return evid.Outcome{NonTrivial: len(f.FRM) > 16, Class: fmt.Sprintf("frm/up=%v/port0=%v", up, f.FPort == 0)}
+	}
+	if c.Build == "cmds" && len(f.FOpts) > 0 {
+		// DecryptFOpts on a frame whose FOpts are held as command structs (built in memory, or decoded before decrypting):
+		// it must apply the transform or return an error, not report success with the FOpts untouched
+		r, _ := gen.ToLib(f, true)
+		if err := r.DecryptFOpts(gen.LibKey(k)); err == nil {
+			after, _ := gen.PayloadsToBytes(up, r.MACPayload.(*lorawan.MACPayload).FHDR.FOpts)
+			// what the transformed bytes stand for once decoded into commands again (reserved bits are dropped by that decode)
+			want := ref.FOptsStream(k, !up && f.FPort > 0, up, f.DevAddr, f.FCnt, f.FOpts)
+			var exp []byte
+			if cs, derr := ref.DecodeCmds(up, want, nil); derr == nil {
+				exp, _ = ref.EncodeCmds(up, cs)
+			}
+			if exp != nil && bytes.Equal(after, f.FOpts) && !bytes.Equal(exp, f.FOpts) {
+				return evid.Fail("PHYPayload.DecryptFOpts on a frame whose FOpts are MAC-command values (%x) reports success and leaves them untransformed", f.FOpts)
+			}
+		}
 	}
 	if err := p.EncryptFOpts(gen.LibKey(k)); err != nil {
 		return evid.Fail("PHYPayload.EncryptFOpts on a valid frame (%d FOpts bytes): %v", len(f.FOpts), err)
